@@ -293,15 +293,38 @@ def run(facts, rep):
                         wguards[x["pat"]["lid"]] = (x["pat"]["name"], fld.get("name", "?"))
         if not wguards:
             continue
+        rguards = {}
+        for x in walk(body):
+            if x.get("k") == "Let" and x["pat"].get("k") == "PBind" and "init" in x:
+                for y in walk(x["init"]):
+                    f = callee(y)
+                    if f and f["def"] in ACQ and ACQ[f["def"]] == "r":
+                        rguards[x["pat"]["lid"]] = x["pat"]["name"]
 
         def mentions(cond, lid):
-            return any(n.get("k") == "Path" and n.get("res") == "local" and n.get("lid") == lid
-                       for n in defs.closure(cond))
+            """Does `cond`, followed through local definitions, read local `lid`?  Guard locals are leaves: what is
+            later stored THROUGH a guard is not part of what the condition reads."""
+            seen = set()
+            work = [cond]
+            while work:
+                e = work.pop()
+                for n in walk(e):
+                    if n.get("k") == "Path" and n.get("res") == "local":
+                        l = n["lid"]
+                        if l == lid:
+                            return True
+                        if l in seen or l in wguards or l in rguards:
+                            continue
+                        seen.add(l)
+                        work.extend(defs.defs.get(l, []))
+            return False
 
         found = []
 
         def join(a, b):
             return a & b
+
+        stale_hits = []
 
         def guard(n, st, sense, kind):
             if kind == "if":
@@ -310,7 +333,11 @@ def run(facts, rep):
                     new = set(st)
                     for lid in wguards:
                         if mentions(n["c"], lid):
-                            new.add(lid)
+                            stale = [nm for rl_, nm in rguards.items() if mentions(n["c"], rl_)]
+                            if stale:
+                                stale_hits.append((lid, stale[0], n))
+                            else:
+                                new.add(lid)
                     return frozenset(new)
             return st
 
@@ -343,6 +370,14 @@ def run(facts, rep):
                     rep.ok("R-LOCK(c)", key, "whole-value store through `%s` is dominated by an exiting re-check that "
                            "reads the protected value through the same write guard" % gname, facts.loc(p, node),
                            sample={"function": p, "guard": gname, "field": fld})
+                elif any(h[0] == lid for h in stale_hits):
+                    h = [h for h in stale_hits if h[0] == lid][0]
+                    rep.violation("R-LOCK(c)", key,
+                                  "the re-check before `*%s = ...` (line %s) compares the protected value of `%s` with a "
+                                  "value computed from the snapshot taken under the READ guard `%s`: if another thread "
+                                  "grew the cache in between, the stale target makes this thread overwrite the longer array "
+                                  "with its shorter one (shrunken cache observable)" %
+                                  (gname, h[2].get("l"), fld, h[1]), facts.loc(p, node))
                 else:
                     rep.violation("R-LOCK(c)", key,
                                   "`*%s = ...` replaces the whole protected value of `%s` without a re-check under the "
